@@ -20,6 +20,9 @@ use std::sync::{Arc, Mutex};
 use std::time::{Duration, Instant};
 use tower::ServiceExt;
 
+#[path = "c06/agent.rs"]
+mod agent;
+
 #[derive(Clone, Copy, Debug, PartialEq, Eq, PartialOrd, Ord)]
 enum Kind {
     Session,
@@ -99,6 +102,10 @@ enum Load {
     /// run, in the middle of it, and in a tight loop from the moment the snapshot file appears (the window between the
     /// last frame and the end of run_session).  No scheduler, no points: oracle only.
     EndRace(u64),
+    /// session, prompt through a scripted provider under one configuration of the switches that change which frames the
+    /// run emits (`agent::Conf`, as bits): request capture, stateless / stateful, tool calls (read-only / workspace /
+    /// refused / none), tool_choice, how the provider round ends, started directly or by a thread message
+    Agent(u64),
 }
 impl Load {
     fn label(&self) -> String {
@@ -112,6 +119,7 @@ impl Load {
             Load::TwoProducers(k) => format!("twoproducers{k}"),
             Load::MessagesTwo => "messagestwo".into(),
             Load::EndRace(k) => format!("endrace{k}"),
+            Load::Agent(b) => format!("agent:{}", agent::Conf::from_bits(*b).label()),
         }
     }
     fn to_json(&self) -> serde_json::Value {
@@ -125,6 +133,7 @@ impl Load {
             Load::TwoProducers(k) => json!({"load": "twoproducers", "k": k}),
             Load::MessagesTwo => json!({"load": "messagestwo"}),
             Load::EndRace(k) => json!({"load": "endrace", "k": k}),
+            Load::Agent(b) => json!({"load": "agent", "k": b, "conf": format!("{:?}", agent::Conf::from_bits(*b))}),
         }
     }
     fn from_json(v: &serde_json::Value) -> Option<Load> {
@@ -139,6 +148,7 @@ impl Load {
             "twoproducers" => Load::TwoProducers(k),
             "messagestwo" => Load::MessagesTwo,
             "endrace" => Load::EndRace(k),
+            "agent" => Load::Agent(k),
             _ => return None,
         })
     }
@@ -212,6 +222,8 @@ enum Ev {
     Oth,
     /// subscriber i read everything that was pending (mid-run read)
     Drain(usize),
+    /// subscriber i, stopped at `sse.live.refilled` (its receiver had lagged, the history has been re-read), moves on
+    Resume(usize),
     /// two-producer load: producer j (0 = actor 0, 1 = PROD_B) took its seq number / recorded / published
     MChoose(usize),
     MRec(usize),
@@ -228,6 +240,9 @@ struct Outcome {
     marks: Vec<Vec<usize>>,
     /// seqs of the stream's frames in events.jsonl, file order
     truth: Vec<u64>,
+    /// their ids, and per subscriber the ids of the frames of its body
+    truth_ids: Vec<String>,
+    delivered_ids: Vec<Vec<String>>,
     events: Vec<Ev>,
     in_flight: u64,
     deadlock: bool,
@@ -270,6 +285,23 @@ fn stream_frames(data: &Path, id: &str, continuity: bool) -> Vec<(u64, String)> 
             continue;
         }
         out.push((v.get("seq").and_then(|x| x.as_u64()).unwrap_or(u64::MAX), ty));
+    }
+    out
+}
+
+/// the `id` of every frame of the stream in events.jsonl, file order
+fn stream_ids(data: &Path, id: &str, continuity: bool) -> Vec<String> {
+    let mut out = vec![];
+    let Ok(text) = std::fs::read_to_string(data.join("events.jsonl")) else { return out };
+    for line in text.lines() {
+        let Ok(v) = serde_json::from_str::<serde_json::Value>(line) else { continue };
+        if v.get("session_id").and_then(|x| x.as_str()) != Some(id) {
+            continue;
+        }
+        if v.get("type").and_then(|x| x.as_str()).unwrap_or("").starts_with("continuity_") != continuity {
+            continue;
+        }
+        out.push(v.get("id").and_then(|x| x.as_str()).unwrap_or("").to_string());
     }
     out
 }
@@ -453,6 +485,9 @@ impl Ctl {
         if en.iter().any(|(a, p)| *a == choice && *p == "c06.read") {
             self.events.push(Ev::Drain(choice));
         }
+        if en.iter().any(|(a, p)| *a == choice && *p == "sse.live.refilled") {
+            self.events.push(Ev::Resume(choice));
+        }
         self.prev = Some(choice);
         Some(choice)
     }
@@ -463,12 +498,14 @@ struct Reader {
     body: axum::body::Body,
     buf: String,
     seqs: Vec<u64>,
+    /// the `id` of every frame received (which frame it is, whatever number it carries)
+    ids: Vec<String>,
     foreign: u64,
     terminal: bool,
 }
 impl Reader {
     fn new(resp: axum::response::Response) -> Reader {
-        Reader { body: resp.into_body(), buf: String::new(), seqs: vec![], foreign: 0, terminal: false }
+        Reader { body: resp.into_body(), buf: String::new(), seqs: vec![], ids: vec![], foreign: 0, terminal: false }
     }
     /// reads every frame that is available now.  Whatever was published or replayed is already queued in this
     /// receiver / history iterator, so `frame()` is ready on its first poll (tokio's `timeout` polls the future before
@@ -491,6 +528,7 @@ impl Reader {
                             if let Ok(v) = serde_json::from_str::<serde_json::Value>(d.trim()) {
                                 let sq = v.get("seq").and_then(|x| x.as_u64()).unwrap_or(u64::MAX);
                                 self.seqs.push(sq);
+                                self.ids.push(v.get("id").and_then(|x| x.as_str()).unwrap_or("").to_string());
                                 if v.get("session_id").and_then(|x| x.as_str()) != Some(stream_id) {
                                     self.foreign += 1;
                                 }
@@ -532,7 +570,14 @@ impl Env {
         let ws = scratch.path().join("ws");
         std::fs::create_dir_all(&ws).unwrap();
         std::fs::write(ws.join("a.txt"), "hello\n").unwrap();
+        let mut endpoint: Option<String> = None;
         let provider = match c.load {
+            Load::Agent(b) => {
+                std::fs::create_dir_all(ws.join("m")).unwrap();
+                let (p, url) = agent::start_provider(agent::Conf::from_bits(b));
+                endpoint = Some(url);
+                p
+            }
             Load::Provider(k) => {
                 let one = provider_script(k);
                 let mut all = vec![];
@@ -544,15 +589,19 @@ impl Env {
             }
             _ => None,
         };
-        let cfg = provider.as_ref().map(|p| ripd::verif::OpenResponsesConfig {
-            endpoint: p.url.clone(),
+        let conf = match c.load {
+            Load::Agent(b) => Some(agent::Conf::from_bits(b)),
+            _ => None,
+        };
+        let cfg = endpoint.or_else(|| provider.as_ref().map(|p| p.url.clone())).map(|endpoint| ripd::verif::OpenResponsesConfig {
+            endpoint,
             api_key: None,
             model: Some("fixture-model".into()),
             headers: vec![],
-            tool_choice: rip_provider_openresponses::ToolChoiceParam::auto(),
-            followup_user_message: None,
-            stateless_history: false,
-            parallel_tool_calls: false,
+            tool_choice: conf.map(|c| c.tool_choice()).unwrap_or_else(rip_provider_openresponses::ToolChoiceParam::auto),
+            followup_user_message: conf.and_then(|c| if c.followup { Some("go on".to_string()) } else { None }),
+            stateless_history: conf.map(|c| c.stateless).unwrap_or(false),
+            parallel_tool_calls: conf.map(|c| c.parallel).unwrap_or(false),
         });
         let (app, driver) = match c.load {
             Load::TwoProducers(_) => {
@@ -576,8 +625,13 @@ fn env_for<'a>(slot: &'a mut Option<Env>, c: &Case) -> &'a mut Env {
     // the capacity of every event channel created from here on (session: POST /sessions of the case; task: POST /tasks;
     // thread: the store's channel, created with the router); 0 = the compiled-in EVENT_CHANNEL_CAPACITY
     ripd::verif::set_event_channel_capacity(c.cap);
+    // the process environment the run reads (request capture); everything but an Agent load runs with capture off
+    agent::Conf::apply_env(match c.load {
+        Load::Agent(b) => Some(agent::Conf::from_bits(b)),
+        _ => None,
+    });
     let stale = match slot {
-        Some(e) => e.key != Env::key_of(c) || e.uses >= ENV_MAX_USES || c.others > 0 || c.loss > 0 || matches!(c.load, Load::TwoProducers(_)),
+        Some(e) => e.key != Env::key_of(c) || e.uses >= ENV_MAX_USES || c.others > 0 || c.loss > 0 || matches!(c.load, Load::TwoProducers(_) | Load::Agent(_)),
         None => true,
     };
     if stale {
@@ -597,7 +651,15 @@ fn run_case(env: &mut Env, c: &Case) -> Outcome {
 
     // ---- setup (not an actor: passes straight through every point)
     let stream_id: Arc<Mutex<Option<String>>> = Arc::new(Mutex::new(None));
+    let via_thread = matches!(c.load, Load::Agent(b) if agent::Conf::from_bits(b).via_thread);
+    let mut run_thread: Option<String> = None;
     match c.kind {
+        Kind::Session if via_thread => {
+            // the session is minted by POST /threads/{id}/messages (the producer's first call)
+            let (st, v) = main_rt.block_on(call_json(&app, req("POST", "/threads/ensure", None)));
+            assert_eq!(st, 200);
+            run_thread = Some(v["thread_id"].as_str().unwrap().to_string());
+        }
         Kind::Session => {
             let (st, v) = main_rt.block_on(call_json(&app, req("POST", "/sessions", None)));
             assert_eq!(st, 201);
@@ -632,12 +694,28 @@ fn run_case(env: &mut Env, c: &Case) -> Outcome {
         let data = data.clone();
         let producer_done = producer_done.clone();
         let driver_a = driver.clone();
+        let run_thread = run_thread.clone();
         sched.spawn(0, move || {
             let rt = new_rt();
             let finished = rt.block_on(async move {
                 // generous: only reached when the machine is overloaded; the case is then inconclusive, never an alarm
                 let deadline = Instant::now() + Duration::from_secs(120);
                 match kind {
+                    Kind::Session if run_thread.is_some() => {
+                        let tid = run_thread.clone().unwrap();
+                        let (st, v) = call_json(&app, req("POST", &format!("/threads/{tid}/messages"), Some(json!({"content": "hello"})))).await;
+                        assert_eq!(st, 202);
+                        let id = v["session_id"].as_str().unwrap().to_string();
+                        *sid.lock().unwrap() = Some(id.clone());
+                        let snap = data.join("snapshots").join(format!("{id}.json"));
+                        loop {
+                            let ended = snap.exists() && stream_frames(&data, &tid, true).iter().any(|(_, t)| t == "continuity_run_ended");
+                            if ended || Instant::now() >= deadline {
+                                break ended;
+                            }
+                            tokio::time::sleep(Duration::from_millis(1)).await;
+                        }
+                    }
                     Kind::Session => {
                         let id = sid.lock().unwrap().clone().unwrap();
                         let input = match load {
@@ -870,21 +948,23 @@ fn run_case(env: &mut Env, c: &Case) -> Outcome {
     let id = stream_id.lock().unwrap().clone().unwrap_or_default();
     out.truth = stream_frames(&data, &id, c.kind == Kind::Thread).into_iter().map(|(s, _)| s).collect();
     let last = out.truth.last().cloned();
-    let mut got: BTreeMap<usize, (u16, Vec<u64>, u64, Vec<usize>)> = BTreeMap::new();
+    out.truth_ids = stream_ids(&data, &id, c.kind == Kind::Thread);
+    let mut got: BTreeMap<usize, (u16, Vec<u64>, u64, Vec<usize>, Vec<String>)> = BTreeMap::new();
     while let Ok((i, rt, status, reader, marks)) = rx.recv_timeout(Duration::from_secs(5)) {
         match reader {
             Some(mut rd) => {
                 rd.drain(&rt, 40, c.kind, last, &id);
-                got.insert(i, (status, rd.seqs, rd.foreign, marks));
+                got.insert(i, (status, rd.seqs, rd.foreign, marks, rd.ids));
             }
             None => {
-                got.insert(i, (status, vec![], 0, marks));
+                got.insert(i, (status, vec![], 0, marks, vec![]));
             }
         }
         drop(rt);
     }
     for i in 1..=c.subs {
-        let (st, seqs, fo, marks) = got.remove(&i).unwrap_or((0, vec![], 0, vec![]));
+        let (st, seqs, fo, marks, ids) = got.remove(&i).unwrap_or((0, vec![], 0, vec![], vec![]));
+        out.delivered_ids.push(ids);
         out.delivered.push((st, seqs));
         out.foreign.push(fo);
         out.marks.push(marks);
@@ -988,6 +1068,7 @@ fn run_end_race(c: &Case, lines: u64) -> Outcome {
     // let the runtime finish the run task (append_run_ended etc.) before the store is read
     std::thread::sleep(Duration::from_millis(50));
     out.truth = stream_frames(&data, &id, false).into_iter().map(|(s, _)| s).collect();
+    out.truth_ids = stream_ids(&data, &id, false);
     out.complete = over && out.panicked.is_empty();
     let last = out.truth.last().cloned();
     for (art, got) in all {
@@ -996,10 +1077,12 @@ fn run_end_race(c: &Case, lines: u64) -> Outcome {
                 Some(mut rd) => {
                     // generous: elapses only when the server owes frames it will never send
                     rd.drain(&art, 3000, Kind::Session, last, &id);
+                    out.delivered_ids.push(rd.ids);
                     out.delivered.push((st, rd.seqs));
                     out.foreign.push(rd.foreign);
                 }
                 None => {
+                    out.delivered_ids.push(vec![]);
                     out.delivered.push((st, vec![]));
                     out.foreign.push(0);
                 }
@@ -1056,7 +1139,14 @@ fn oracle(c: &Case, o: &Outcome, cap: usize) -> Option<(String, String)> {
     let n = o.truth.len() as u64;
     let want: Vec<u64> = (0..n).collect();
     if o.truth != want {
-        return Some((format!("{} stream in events.jsonl is not 0..n-1: {:?}", c.kind.name(), o.truth), "truth_not_contiguous".into()));
+        // what the producer recorded is not numbered 0,1,2,..: either two producers overtook each other (the numbers are a
+        // permutation) or a frame did not consume its number / consumed two (a number twice, a number skipped)
+        let dup = o.truth.iter().collect::<BTreeSet<_>>().len() != o.truth.len();
+        let shown = &o.truth[..o.truth.len().min(40)];
+        return Some((
+            format!("{} stream ({}) as recorded in events.jsonl is not numbered 0..n-1{}: {:?}{}", c.kind.name(), c.load.label(), if dup { " (a seq number is carried by two frames: a replaying subscriber sees it twice, a live subscriber's `seq <= last` filter drops the second frame)" } else { "" }, shown, if o.truth.len() > 40 { " .." } else { "" }),
+            "truth_not_contiguous".into(),
+        ));
     }
     for (i, fo) in o.foreign.iter().enumerate() {
         if *fo > 0 {
@@ -1148,6 +1238,13 @@ fn oracle(c: &Case, o: &Outcome, cap: usize) -> Option<(String, String)> {
                 class.into(),
             ));
         }
+        // the same FRAMES, not only the same numbers: body = the log's frames of this stream, each once, in the log's order
+        // (so any two subscribers agree with each other as well)
+        if !o.truth_ids.is_empty() && o.delivered_ids.get(i).map(|d| !d.is_empty() && *d != o.truth_ids).unwrap_or(false) {
+            let d = &o.delivered_ids[i];
+            let at = d.iter().zip(o.truth_ids.iter()).position(|(a, b)| a != b).unwrap_or(d.len().min(o.truth_ids.len()));
+            return Some((format!("{} stream, subscriber {}: the body's seqs are 0..{} but its frame #{} is not frame #{} of the log (ids differ)", c.kind.name(), i + 1, n, at, at), "frame_identity_mismatch".into()));
+        }
     }
     None
 }
@@ -1165,7 +1262,7 @@ fn coq_case(c: &Case, o: &Outcome) -> String {
         Ev::Pub | Ev::Rec => "AP".to_string(),
         Ev::Sub(i) | Ev::Snap(i) => format!("(AS {})", coq_nat(*i as u64 - 1)),
         Ev::Oth => "AO".to_string(),
-        Ev::Drain(i) => format!("(AS {})", coq_nat(*i as u64 - 1)),
+        Ev::Drain(i) | Ev::Resume(i) => format!("(AS {})", coq_nat(*i as u64 - 1)),
         Ev::MChoose(_) | Ev::MRec(_) | Ev::MPub(_) => unreachable!(),
     });
     let mut expect = vec![];
@@ -1233,7 +1330,46 @@ fn producer_points(kind: Kind, load: &Load) -> Vec<&'static str> {
     run_case(&mut env, &c).producer_trace
 }
 
+/// schedule prefix of a matrix case: the producer runs `start` steps (the run exists from there on), subscriber 1 attaches
+/// and then reads after every `stride` producer steps; each `(sub, a, d)` of `mids` subscribes when the producer has made
+/// `a` steps and snapshots `d` producer steps later; subscriber `late` (0 = none) attaches after the producer finished
+fn agent_sched(start: usize, t: usize, early: bool, mids: &[(usize, usize, usize)], late: usize, reads: usize, stride: usize) -> Vec<usize> {
+    let mut s = vec![0; start];
+    if early {
+        s.extend([1, 1]);
+    }
+    let mut reads_left = reads;
+    for pos in start..=(t + 2) {
+        for (sub, a_, d) in mids {
+            if pos == *a_ {
+                s.push(*sub);
+            }
+            if pos == *a_ + *d {
+                s.push(*sub);
+            }
+        }
+        if early && reads_left > 0 && stride > 0 && pos > start && (pos - start) % stride == 0 {
+            s.push(1);
+            reads_left -= 1;
+        }
+        s.push(0);
+    }
+    if late > 0 {
+        s.extend([late, late]);
+    }
+    s
+}
+
 fn main() {
+    // the run's configuration comes from build_app and from the variables the matrix sets: nothing from the caller's environment
+    for (k, _) in std::env::vars() {
+        if k.starts_with("RIP_") {
+            std::env::remove_var(&k);
+        }
+    }
+    std::env::set_var("NO_PROXY", "127.0.0.1,localhost");
+    let home = Scratch::new("c06home");
+    std::env::set_var("HOME", home.path());
     let a = parse_args();
     let mut res = RunResult::new("C06", &a);
     res.rule = "case = (stream kind, load, number of subscribers, schedule prefix over {0 = producer, i = subscriber i, 9 = producer of ANOTHER thread on the shared continuity channel}); the schedule is forced on the real axum router through the rip_verif points (record/publish in the emitters and continuity appends incl. the file-system steps of log and sidecar, subscribe/snapshot in the handlers); enumeration per load: every pair (a, b) of relevant producer positions with a <= b (b at most 4 positions after a in quick, 7 in thorough, or the end of the run): the subscriber subscribes after a producer steps and snapshots after b; plus position 0 (before the stream starts) and after the run ended; plus seeded random interleavings of 2-4 concurrent subscribers; plus fast consumers that read their body 1-6 times WHILE the stream is produced (point c06.read; each read must return every frame published so far); thread kind in addition: a foreign producer (POST /threads/{id}/branch) before the attach / between subscribe and snapshot / randomly interleaved; session / task kinds in addition: attach AFTER the last frame, inside the snapshot write at the end of the run (producer parked at snap.created / snap.written / snap.flushed; the subscriber's snapshot step is granted although the buffer lock is believed held); thread kind in addition: the sidecar cache is deleted (whole directory / the thread's file) after a producer steps, the producer goes on for d steps, then a subscriber attaches; hook-free: one long `bash seq 1 k` session on a multi-thread runtime with subscribers attaching before the input, in the middle of the run and 15 times back to back from the moment the snapshot file appears (oracle only); corpus first (S8 witnesses, the 18007-frame lag witness, end-of-run attach, cache loss); non-trivial = the subscriber attaches strictly inside the run (after the first and before the last producer record/publish step)".into();
@@ -1269,6 +1405,9 @@ fn main() {
             (Kind::Task, Load::TaskCmd(2)),
             (Kind::Thread, Load::Messages(2)),
             (Kind::Thread, Load::Messages(4)),
+            // every attach position x gap of a captured stateful run with a tool call, and of a stateless thread-started one
+            (Kind::Session, Load::Agent(agent::Conf { capture: 1, stateless: false, tools: 1, choice: 0, outcome: 0, followup: false, parallel: false, via_thread: false }.bits())),
+            (Kind::Session, Load::Agent(agent::Conf { capture: 1, stateless: true, tools: 0, choice: 0, outcome: 1, followup: true, parallel: false, via_thread: false }.bits())),
         ]);
     }
     let repo_root = a.repo();
@@ -1277,6 +1416,52 @@ fn main() {
     // (20 000 lines: more frames than the channel holds - the subscribers attached before / during the run lag and refill)
     for k in if thorough { vec![6000u64, 3000, 1500, 20000] } else { vec![3000u64] } {
         cases.push(Case { kind: Kind::Session, load: Load::EndRace(k), subs: 5, sched: vec![], others: 0, reads: 0, loss: 0, probe: false, cap: 0 });
+    }
+    // ---- THE CONFIGURATION MATRIX: provider-backed session runs under every switch that changes which frames a run emits
+    // (agent::Conf), subscribers attached before the run, reading along, attaching inside it and after it
+    {
+        for (name, how) in agent::switches_in_source(&repo_root) {
+            match how {
+                Some(h) => res.notes.push(format!("switch {name}: {h}")),
+                None => res.notes.push(format!("switch {name}: found in crates/ripd/src, NOT in the harness's table (no case drives it)")),
+            }
+        }
+        let confs = agent::confs(thorough);
+        let mut n_matrix = 0;
+        for conf in &confs {
+            let load = Load::Agent(conf.bits());
+            let trace = producer_points(Kind::Session, &load);
+            let t = trace.len();
+            // the run exists (its session id is known) once the producer stands in front of its first frame
+            let start = if conf.via_thread { trace.iter().position(|p| *p == "sess.before_emit").map(|i| i + 1).unwrap_or(0) } else { 0 };
+            let recs: Vec<usize> = trace.iter().enumerate().filter(|(_, p)| **p == "sess.recorded").map(|(i, _)| i + 1).collect();
+            if recs.len() < 2 {
+                res.notes.push(format!("{}: the dry run produced {} frames (skipped)", load.label(), recs.len()));
+                continue;
+            }
+            let at = |f: usize| recs[f.min(recs.len() - 1)];
+            // (1) attached before the first frame and reading along; one joins between record and publish of frame 1 (the
+            // frame a request capture puts in front of the first request); one joins after the end
+            let stride = (t / 5).max(1);
+            cases.push(Case { kind: Kind::Session, load: load.clone(), subs: 3, sched: agent_sched(start, t, true, &[(2, at(1), 1)], 3, 3, stride), others: 0, reads: 3, loss: 0, probe: false, cap: 0 });
+            // (2) two subscribers join inside the run (at the frame after the capture frame; two thirds in, snapshot one frame
+            // later), a third after the end; nobody reads before the end
+            cases.push(Case { kind: Kind::Session, load: load.clone(), subs: 3, sched: agent_sched(start, t, false, &[(1, at(2), 0), (2, at(recs.len() * 2 / 3), 9)], 3, 0, 0), others: 0, reads: 0, loss: 0, probe: false, cap: 0 });
+            n_matrix += 2;
+            for _ in 0..(if thorough { 3 } else { 0 }) {
+                let a1 = r.range(start as u64, t as u64) as usize;
+                let a2 = r.range(start as u64, t as u64) as usize;
+                let reads = r.range(0, 3) as usize;
+                cases.push(Case { kind: Kind::Session, load: load.clone(), subs: 4, sched: agent_sched(start, t, true, &[(2, a1, r.range(0, 12) as usize), (3, a2, r.range(0, 3) as usize)], 4, reads, r.range(1, 30) as usize), others: 0, reads, loss: 0, probe: false, cap: 0 });
+                n_matrix += 1;
+            }
+            // small channels: the early subscriber lags behind the run and refills
+            if thorough || conf.tools == 1 {
+                cases.push(Case { kind: Kind::Session, load: load.clone(), subs: 2, sched: agent_sched(start, t, true, &[(2, at(3), 2)], 0, 2, (t / 3).max(1)), others: 0, reads: 2, loss: 0, probe: false, cap: 2 });
+                n_matrix += 1;
+            }
+        }
+        res.notes.push(format!("configuration matrix: {} configurations, {} cases", confs.len(), n_matrix));
     }
     // ---- a task stream longer than its channel (2 x 8500 frames through the real TaskEmitter): the subscriber attaches
     // first and reads last, so its receiver lags and the task handler has to refill from the history
@@ -1441,6 +1626,46 @@ fn main() {
                     cases.push(Case { kind: *kind, load: load.clone(), subs, sched: s, others: 0, reads: r.range(0, 3) as usize, loss: 0, probe: false, cap: *cap });
                     n_small += 1;
                 }
+            }
+            // THE WINDOW of the lag recovery: the subscriber attaches first and does not read while the producer emits more
+            // frames than the channel holds; then it reads (recv says Lagged, the history is re-read, the handler stops at
+            // `sse.live.refilled`); the producer records and publishes 1 frame (or capacity + 1 frames: the receiver lags
+            // again) INSIDE the window; the subscriber moves on; everything finishes.  A frame emitted in the window is not
+            // in the history that was re-read: it reaches the client only through the receiver that was subscribed before
+            {
+                let free: Vec<usize> = trace
+                    .iter()
+                    .enumerate()
+                    .filter(|(_, p)| match kind {
+                        Kind::Thread => **p == "cont.bcast",
+                        _ => p.ends_with(".before_emit"),
+                    })
+                    .map(|(i, _)| i + 1)
+                    .collect();
+                let pubs_before = |x: usize| trace[..x.min(trace.len())].iter().filter(|p| **p == kind.pub_point()).count();
+                let mut n_win = 0;
+                for cap in caps {
+                    let starts: Vec<usize> = free.iter().cloned().filter(|f| pubs_before(*f) >= cap + 1).collect();
+                    let picks: Vec<usize> = if thorough || starts.len() <= 2 { starts.clone() } else { vec![starts[0], starts[starts.len() - 1]] };
+                    for f in picks {
+                        for in_window in [1usize, cap + 1] {
+                            // the window closes at the first free position with `in_window` more frames published (or at the end)
+                            let g = free.iter().cloned().find(|g| *g > f && pubs_before(*g) >= pubs_before(f) + in_window).unwrap_or(t + 1);
+                            if pubs_before(g.min(t)) < pubs_before(f) + 1 {
+                                continue;
+                            }
+                            let mut s = vec![1, 1, 1];
+                            s.extend(vec![0; f]);
+                            s.push(1);
+                            s.extend(vec![0; g - f]);
+                            s.push(1);
+                            cases.push(Case { kind: *kind, load: load.clone(), subs: 1, sched: s, others: 0, reads: 1, loss: 0, probe: false, cap: *cap });
+                            n_small += 1;
+                            n_win += 1;
+                        }
+                    }
+                }
+                res.notes.push(format!("{} {}: {} lag-recovery window cases", kind.name(), load.label(), n_win));
             }
             // lagging AND the history busy: the subscriber attaches first and does not read while the producer emits
             // cap + 1 or more frames (its receiver overflows), then it reads while the producer is parked inside the emit
